@@ -216,6 +216,20 @@ Example C06_reader_example16 :      (* a 3 x 2 image: odd width, output rows pad
   end.
 Proof. vm_compute. repeat split; try reflexivity; try discriminate; intros; exact I. Qed.
 
+(* the control-byte boundary (seed C06_i): a run of 129 copies is the control byte 0x80, a literal of 128 bytes is 0x7f;
+   both are inside [wf_tok], so the theorems above cover them.  A 129 x 1 image: each plane is one run of 129, or the
+   same plane cut as a run of 128 + a literal of 1 - the reader sees the same pixels in both files *)
+Example C06_boundary_example16 :
+  let ts1 := [TRun 129 x12; TRun 129 x34] in
+  enc_toks ts1 = [x80; x12; x80; x34] /\ Forall wf_tok ts1 /\ confined 129 258 0 ts1 /\
+  nth 0 (enc_toks [TLit (repeat x34 128)]) x00 = x7f /\
+  dec_toks ts1 = repeat x12 129 ++ repeat x34 129 /\
+  match decode16 (enc_toks ts1) 129 1 0 0, decode16 (enc_toks [TRun 128 x12; TLit [x12]; TLit (repeat x34 128); TLit [x34]]) 129 1 0 0 with
+  | Ok bmp1, Ok bmp2 => bmp1 = bmp2 /\ map (fun x => bmp_read2 bmp1 x 0) [0; 64; 127; 128] = repeat (Some [x34; x12]) 4
+  | _, _ => False
+  end.
+Proof. vm_compute. repeat split; try reflexivity; try discriminate; try lia; repeat constructor; intros; try exact I. Qed.
+
 (* non-vacuity of the reader theorems: the premises hold for a 3x2 image at offset (1,1) on a 5x3 canvas with the
    default palettes, and the reader sees the expected pixels in the file the model writes *)
 Definition ex_rows8 : list (list tok) := [[TRun 2 x07; TLit [x09; x00]]; [TLit [x01]; TRun 3 x00]].
